@@ -7,6 +7,12 @@ HOOKS = {
     'add_only': True,
 }
 ENGINES = [
+    {'name': 'tlc+simzmq', 'path': '/verif/vlib', 'serves_properties': ['C01', 'C02', 'C03', 'C04', 'C05', 'C06', 'C07'],
+     'kind_free_text': 'explicit TLA+ specification of the request/publish protocol (spec/proto/OFP.tla: one action per '
+                       'poll()-to-poll() block of the code) checked by TLC (exhaustive for small constants, -simulate beyond, '
+                       'fairness for liveness); bound to the unmodified Filter/MQ/ZMQSender/ZMQReceiver classes running on an '
+                       'in-memory deterministic zmq stand-in with virtual time: spec->code replay with state projection '
+                       'comparison, mutation-directed schedules, fault enumeration, observers on real executions'},
     {'name': 'tlc+replay', 'path': '/verif/vlib', 'serves_properties': ['C10', 'C13', 'C14'],
      'kind_free_text': 'TLA+ state-machine specification checked exhaustively by TLC within bounds; TLC-generated '
                        'behaviours (transition cover, -simulate) replayed step by step into the real class with the '
@@ -20,6 +26,62 @@ NOTES = ('All checks: ./check <id> --tier quick|thorough; VERIF_SEED, VERIF_TIER
          'Specifications under /verif/spec, known findings in /verif/known_findings.json, design in DESIGN.md.')
 NOT_YET = {}
 CHECKS = {
+    'C04': dict(
+        engine='tlc+simzmq', technique='TLA+ protocol spec (OFP.tla) model-checked by TLC; TLC counterexamples of design mutations and -simulate behaviours replayed into the real Filter/MQ/ZMQ classes on a simulated network with state comparison; property observers on real executions',
+        design_ref='DESIGN.md 2.1, 3, 4, 5/C04',
+        text="TLC proves, with Stall(consumer) enabled at every reachable state and connections that never time out, that a publisher publishes at most 5 (sole consumer) / 6 (consumer behind a relay) further frames towards a stalled synchronized consumer (C04_Tight5/6, far inside the property's single-digit bound C04_Bounded) under zero-latency and prompt scheduling; the mutated design that does not clear `requested` on publish yields a TLC schedule that is replayed on the real code; -simulate behaviours with stalls are replayed with state comparison; on the real pipeline a consumer is stalled at seeded random steps in four topology positions (sole, one of two, behind a relay, the relay itself, slow relay) and the run continues for 1500-2500 steps: the number of distinct frames its direct publisher publishes on that output after the stall must stay <= 9.",
+        note='the real ZeroMQ library is replaced by vlib/simzmq.py (FIFO per connection, atomic multipart, PUB drops at the high-water mark, PUSH pipe from connect(), slow joiner); exhaustive model checking for small constants (2-5 filters, 2-9 frames), larger pipelines sampled; Filter.Runner / multi-process supervision not modelled (filters run as cooperative tasks of one deterministic scheduler)'),
+    'C05': dict(
+        engine='tlc+simzmq', technique='TLA+ protocol spec (OFP.tla) model-checked by TLC; TLC counterexamples of design mutations and -simulate behaviours replayed into the real Filter/MQ/ZMQ classes on a simulated network with state comparison; property observers on real executions',
+        design_ref='DESIGN.md 2.1, 3, 4, 5/C05',
+        text="TLC proves on OFP.tla, for a publisher with synchronized, ? and ?? consumers and for an ephemeral branch rejoined as an ephemeral source, that ephemeral sets are complete for their subscription and ordered (C05_EphComplete), that the publish guard never waits for an ephemeral client (C05_GuardSync), that a ?? connection never carries a request (TypeOK), and that the synchronized sinks keep C01/C02 (and C03 with required outputs) whatever the ephemeral consumers do (slow, stalled, killed); -simulate behaviours incl. stall/kill of the ephemeral consumers are replayed with state comparison; random schedules with observers; a differential on the real code under the global virtual clock: the same pipeline with and without its ephemeral consumers (running, stalled forever, killed) - the publisher's publish times must not be later and every synchronized sink's input sequence must be identical.",
+        note='the real ZeroMQ library is replaced by vlib/simzmq.py (FIFO per connection, atomic multipart, PUB drops at the high-water mark, PUSH pipe from connect(), slow joiner); exhaustive model checking for small constants (2-5 filters, 2-9 frames), larger pipelines sampled; Filter.Runner / multi-process supervision not modelled (filters run as cooperative tasks of one deterministic scheduler)'),
+    'C07': dict(
+        engine='tlc+simzmq', technique='TLA+ protocol spec (OFP.tla) model-checked by TLC; TLC counterexamples of design mutations and -simulate behaviours replayed into the real Filter/MQ/ZMQ classes on a simulated network with state comparison; property observers on real executions',
+        design_ref='DESIGN.md 2.1, 3, 4, 5/C07',
+        text='TLC proves C07_OneBranch (every publish of a balanced publisher goes to exactly one output), C07_Rejoin (ids strictly increasing, no frame twice at a balanced-sources consumer) and C01 at the rejoin for splitter -> 2 workers -> rejoin with 2-4 frames under zero-latency and prompt scheduling, with a ?? watcher on a branch; mutated designs (publish on all outputs, prefetch on the first hop) yield schedules replayed on the real code; -simulate behaviours with equal and unequal worker speeds replayed with state comparison; random schedules on 2- and 3-branch pipelines with a slow worker.',
+        note='the real ZeroMQ library is replaced by vlib/simzmq.py (FIFO per connection, atomic multipart, PUB drops at the high-water mark, PUSH pipe from connect(), slow joiner); exhaustive model checking for small constants (2-5 filters, 2-9 frames), larger pipelines sampled; Filter.Runner / multi-process supervision not modelled (filters run as cooperative tasks of one deterministic scheduler)'),
+    'C13': dict(
+        engine='tlc+replay', technique='TLA+ state-machine spec (RollLog.tla) checked by TLC; transition-cover replay, -simulate replay and TLC trace validation (TraceRollLog.tla) against the real RollLog class',
+        design_ref='DESIGN.md 2.3, 3, 5/C13',
+        text='TLC proves the four C13 action properties (ExactlyOnceInOrder, Budget, NewestKept, NoOverwrite) of RollLog.tla with '
+             'Defects={} on bounded configurations (<=4/5 writes, record sizes, file_size, total_size, <=2 readers, a clock that may '
+             'stand still or step back, external deletion) and exhibits a counterexample for each defect switch, which is replayed on '
+             'the real RollLog; every model transition of the cover configurations (seeded sample in quick) and -simulate behaviours '
+             'are replayed on real objects in all four modes with full-state comparison after every step; random histories are judged '
+             'by a monitor proven equal to the spec\'s step formulas and a sample is validated by TLC against TraceRollLog.tla.',
+        note='cells of 8/9/13 bytes; writes and reads atomic (flush=True); files smaller than the read buffer; the log directory '
+             'is never removed; a restarted writer is not handed a timestamp <= names of newer files that were deleted'),
+    'C14': dict(
+        engine='tlc+replay', technique='TLA+ refinement of write_head into file-system operations with Crash anywhere (HeadFile.tla) checked by TLC; crash-point fault enumeration and TLC trace validation against the real class',
+        design_ref='DESIGN.md 2.3, 3, 5/C14',
+        text='TLC proves the C14 invariants and action properties of HeadFile.tla (HeadNeverCorrupt, RestartsFromSavedPos, NoSkip, '
+             'BoundedReplay, SavedNotAhead) with Crash enabled between any two file-system operations of a save and between any two '
+             'reader operations; every transition is replayed with the crash injected at the matching operation of the real '
+             'write_head (exception from wrapped open/write/close/rename, unflushed residue none/part/all); crash points are '
+             'enumerated over up to 3 stop/restart cycles on reference histories; a sample of recorded executions is validated by TLC '
+             'against TraceHeadFile.tla.',
+        note='crash = process death, not power loss; deletion only while the reader is down; large retention budget; monotone timestamps'),
+    'C01': dict(
+        engine='tlc+simzmq', technique='TLA+ protocol spec (OFP.tla) model-checked by TLC; TLC counterexamples of design mutations and -simulate behaviours replayed into the real Filter/MQ/ZMQ classes on a simulated network with state comparison; property observers on real executions',
+        design_ref='DESIGN.md 2.1, 3, 4, 5/C01',
+        text='TLC proves C01_SameId / C01_ExactTopics / C01_SameOrigin (evaluated at every delivery) on OFP.tla for tee-rejoin (skipping and slow branches), independent join and chain configurations under zero-latency, prompt and free scheduling; for each design mutation (no sibling invalidation on a newer id - two variants, slice amnesia of the adopted id, partial sets accepted, id not carried through MQ) TLC produces the shortest violating behaviour, which is replayed as a schedule on the real classes; -simulate behaviours are replayed step by step with the projection of the real objects compared with the model state after every step; seeded random schedules (timeouts anywhere, lost publishes) run on the real pipeline. Verdicts come only from the observer formulas evaluated on what real process() calls were handed versus what was really published.',
+        note='the real ZeroMQ library is replaced by vlib/simzmq.py (FIFO per connection, atomic multipart, PUB drops at the high-water mark, PUSH pipe from connect(), slow joiner); exhaustive model checking for small constants (2-5 filters, 2-4 frames), larger pipelines sampled; Filter.Runner / multi-process supervision not modelled (filters run as cooperative tasks of one deterministic scheduler)'),
+    'C02': dict(
+        engine='tlc+simzmq', technique='TLA+ protocol spec (OFP.tla) model-checked by TLC; TLC counterexamples of design mutations and -simulate behaviours replayed into the real Filter/MQ/ZMQ classes on a simulated network with state comparison; property observers on real executions',
+        design_ref='DESIGN.md 2.1, 3, 4, 5/C02',
+        text='TLC proves C02_Order / C02_Hidden on OFP.tla under free interleaving (duplicated and stale requests), with kill/restart of publisher and consumer (in-flight messages kept or cut, client expiry) and for every subscription form incl. hidden topics; mutation-directed schedules (older-id discard removed) and -simulate behaviours with kill/drop faults are replayed into the real classes with state comparison; random schedules with kill/restart faults; a content pipeline checks byte-exact delivery (raw image bytes, jpg bytes, data) for every subscription spec and outputs_jpg setting.',
+        note='the real ZeroMQ library is replaced by vlib/simzmq.py (FIFO per connection, atomic multipart, PUB drops at the high-water mark, PUSH pipe from connect(), slow joiner); exhaustive model checking for small constants (2-5 filters, 2-4 frames), larger pipelines sampled; Filter.Runner / multi-process supervision not modelled (filters run as cooperative tasks of one deterministic scheduler)'),
+    'C03': dict(
+        engine='tlc+simzmq', technique='TLA+ protocol spec (OFP.tla) model-checked by TLC; TLC counterexamples of design mutations and -simulate behaviours replayed into the real Filter/MQ/ZMQ classes on a simulated network with state comparison; property observers on real executions',
+        design_ref='DESIGN.md 2.1, 3, 4, 5/C03',
+        text="TLC proves C03_Prefix (each filter's input sequence is a prefix of the functional composition InById/OutById of the upstream process() functions, paired by message id) under prompt / zero-latency scheduling with handshake and required outputs, and C03_Complete (liveness, strong fairness per filter) - for chain, tee, tee-rejoin, join, skipping / slow / lazy (callable) filters; mutation schedules (handshake ineffective -> first frame lost, required outputs ignored); conformance replay; prompt schedules under the global virtual clock on real Filter subclasses with the process() input logs compared with the composition and the callable's evaluation step compared with its publish step.",
+        note='the real ZeroMQ library is replaced by vlib/simzmq.py (FIFO per connection, atomic multipart, PUB drops at the high-water mark, PUSH pipe from connect(), slow joiner); exhaustive model checking for small constants (2-5 filters, 2-4 frames), larger pipelines sampled; Filter.Runner / multi-process supervision not modelled (filters run as cooperative tasks of one deterministic scheduler)'),
+    'C06': dict(
+        engine='tlc+simzmq', technique='TLA+ protocol spec (OFP.tla) model-checked by TLC; TLC counterexamples of design mutations and -simulate behaviours replayed into the real Filter/MQ/ZMQ classes on a simulated network with state comparison; property observers on real executions',
+        design_ref='DESIGN.md 2.1, 3, 4, 5/C06',
+        text='TLC proves C06_Heals (<>[] every origin has handed off all frames and everything is alive) under FairFault (strong fairness per filter, a killed filter is eventually restarted, client expiry through ConnTicks) for kill and stall of publisher or consumer, and the ordering invariant with kill/restart; -simulate behaviours with kill/stall faults are replayed with state comparison; fault enumeration on the real code under the global virtual clock: (kill step of a deterministic reference run) x (victim) x (restart delay 0 / shorter / longer than the connection timeout) x (in-flight kept/cut), stall/resume, permanent death or silence of a non-required consumer, missing required output - every live synchronized sink must be handed a new frame within connection timeout + 5 poll intervals after the restart, and C02_Order must hold over the whole run.',
+        note='the real ZeroMQ library is replaced by vlib/simzmq.py (FIFO per connection, atomic multipart, PUB drops at the high-water mark, PUSH pipe from connect(), slow joiner); exhaustive model checking for small constants (2-5 filters, 2-4 frames), larger pipelines sampled; Filter.Runner / multi-process supervision not modelled (filters run as cooperative tasks of one deterministic scheduler)'),
     'C11': dict(
         engine='tlc+vectors', technique='TLA+ reference spec of the configuration text grammar and per-filter normalisers (ConfigGrammar.tla) checked by TLC; all cases replayed into the real parse_topics/parse_options and the ten real normalize_config',
         design_ref='DESIGN.md 2.5, 5/C11',
